@@ -103,6 +103,7 @@ NEEDS.update(json.load(open(os.path.join(os.path.dirname(__file__), 'r8_needs.js
 NEEDS.update(json.load(open(os.path.join(os.path.dirname(__file__), 'r9_needs.json'))))
 NEEDS.update(json.load(open(os.path.join(os.path.dirname(__file__), 'r10_needs.json'))))
 NEEDS.update(json.load(open(os.path.join(os.path.dirname(__file__), 'r11_needs.json'))))
+NEEDS.update(json.load(open(os.path.join(os.path.dirname(__file__), 'r12_needs.json'))))
 # changes whose description showed that the generator could not reach them; strengthened before their first run
 PRE_STRENGTHENED = {"C06r2-A", "C06r2-B", "C17r3-A", "C18r3-B", "C06r3-A"}
 results = {}
